@@ -78,12 +78,18 @@ def _docstring(r: Any, fmt: str, n0: int, params: List[str], allow_param: bool, 
         kind = r.choice(['para', 'para', 'list'] if fmt in ('epytext', 'restructuredtext') else ['para'])
         nl = r.randint(1, 3)
         first = len(lines)
+        repeat: List[str] = []
         for j in range(nl):
             text = words(r.randint(1, 4))
+            if repeat and r.random() < .5:
+                # the same unresolvable target once more, further down in the same block: it is still the first
+                # occurrence (or the block's first line) that locates the problem
+                text += ' ' + xref(repeat[0]) + ' ' + words(1)
             if r.random() < .35:
                 t = tok()
                 text += ' ' + xref(t) + ' ' + words(1)
                 plants.append(Plant('xref', t, first, len(lines)))
+                repeat.append(t)
             if kind == 'list':
                 pad = ('  ' if fmt == 'epytext' else '')
                 text = (pad + '- ' + text) if j == 0 else (pad + '  ' + text)
